@@ -80,6 +80,9 @@ type fenv struct {
 	writing    map[uint64]*ev
 	idMap      map[int]uint64 // model checkpoint id -> real id
 	panicNote  string
+
+	// restart arm (restart.go): park start() inside the harness-owned NewSourceSplitter / SourceSplitter.Start
+	parkSplitter bool
 }
 
 // ------------------------------------------------------------ fake nodes ----
@@ -151,6 +154,21 @@ func (e *fenv) deployCall(id string, req any) error {
 	return <-x.gate
 }
 
+// parkable records an observation made on a goroutine of the code under test; in the restart arm that goroutine
+// is parked until the replayer releases it (the splitter is harness-owned: no hook needed).
+func (e *fenv) parkable(x ev) {
+	e.mu.Lock()
+	park := e.parkSplitter && !e.free
+	e.mu.Unlock()
+	if park {
+		x.gate = make(chan error, 1)
+	}
+	e.ev.add(x)
+	if park {
+		<-x.gate
+	}
+}
+
 // fake source: the splitter assigns one split to every runner
 type fsource struct{ e *fenv }
 
@@ -160,7 +178,7 @@ func (s *fsource) NewSourceReader(connectors.SourceReaderHooks) connectors.Sourc
 	panic("not used")
 }
 func (s *fsource) NewSourceSplitter(ids []string, hooks connectors.SourceSplitterHooks, _ chan<- error) connectors.SourceSplitter {
-	s.e.ev.add(ev{Kind: "splitter.new", Arg: append([]string(nil), ids...)})
+	s.e.parkable(ev{Kind: "splitter.new", Arg: append([]string(nil), ids...)})
 	return &fsplitter{e: s.e, ids: append([]string(nil), ids...), hooks: hooks}
 }
 
@@ -177,7 +195,7 @@ func (s *fsplitter) Start(ck *snapshotpb.SourceCheckpoint) error {
 	if ck != nil {
 		id = ck.CheckpointId
 	}
-	s.e.ev.add(ev{Kind: "splitter.start", Id: id})
+	s.e.parkable(ev{Kind: "splitter.start", Id: id, Arg: ck})
 	m := map[string][]*workerpb.SourceSplit{}
 	for i, id := range s.ids {
 		m[id] = []*workerpb.SourceSplit{{SplitId: fmt.Sprint(i), SourceId: "fake"}}
@@ -420,6 +438,11 @@ func (e *fenv) beginStart(d time.Duration) (*attempt, string) {
 	if _, ok := e.take(waitLong, isKind("splitter.new")); !ok {
 		return nil, "start() did not create a source splitter"
 	}
+	return e.collectDeploys(), ""
+}
+
+// collectDeploys waits for the Deploy calls of the start() in flight (they park at the fake nodes).
+func (e *fenv) collectDeploys() *attempt {
 	a := &attempt{opReqs: map[string]*workerpb.DeployOperatorRequest{}}
 	e.deploys = map[string]*ev{}
 	// the first Deploy tells how many to expect (the request names every member)
@@ -453,7 +476,7 @@ func (e *fenv) beginStart(d time.Duration) (*attempt, string) {
 	sort.Strings(a.ops)
 	sort.Strings(a.srs)
 	e.asmOps, e.asmSrs = a.ops, a.srs
-	return a, ""
+	return a
 }
 
 // checkAttempt judges a start attempt against the property. regs: registries (after purge) one of which
@@ -574,7 +597,7 @@ func (e *fenv) tick() (id uint64, srs []string, had bool) {
 func (e *fenv) srAck(id string, ck uint64) (error, string) {
 	return protect(func() error {
 		return e.job.HandleSourceRunnerCheckpointComplete(context.Background(), &jobpb.SourceRunnerCheckpointCompleteRequest{
-			CheckpointId: ck, SourceRunnerId: id, SplitStates: [][]byte{[]byte(id)}})
+			CheckpointId: ck, SourceRunnerId: id, SplitStates: [][]byte{[]byte(fmt.Sprintf("%s@%d", id, ck))}})
 	})
 }
 
